@@ -74,7 +74,7 @@ def gen_rewrite(tier, rng):
         snaplen, recs = gen_records(rng)
         pc = file_of(snaplen, recs, rng.choice([0xA1B2C3D4, 0xA1B23C4D]))
         prog = ('let f = pcap_open("@TMP@/in.pcap"); let ps = pcap_read_all(f); let o = pcap_open("@TMP@/out.pcap", "w"); let i = 0; let tot = 0; '
-                'while i < len(ps) { tot = tot + pcap_write(o, ps[i]); i = i + 1; } puts(tot);')
+                'while i < len(ps) { %s tot = tot + pcap_write(o, ps[i]); i = i + 1; } puts(tot);' % rng.choice(["", "ps[i].eth;", "ps[i].caplen; ps[i].payload;", "let e = ps[i].eth; if !is_error(e) { e.src; e.payload; }"]))
         want_recs = parse_pcap(pc)[1]
         tot = sum(16 + len(d) for _, d in want_recs)
 
